@@ -187,7 +187,19 @@ class DocGen:
                 for _ in range(2):
                     for p in f.params:
                         head.append(self.value(p.ty, p.name))
-            else:
+        if getattr(self, "stagger", False) and len(head) > 1:
+            # parameter i starts (i mod 3) lines below the previous token: same line / next line / one blank line between
+            cont = "  " * (indent + 1)
+            text = head[0]
+            for i, tok in enumerate(head[1:]):
+                k = (i + self.counter) % 3
+                text += (" " if k == 0 else "\n" * k + cont) + tok
+            head = [text]
+        subs = []
+        for f in b.fields:
+            if isinstance(f, Param) or isinstance(f, Seq):
+                continue
+            if True:
                 if not self.in_version(f.vlow, f.vup):
                     continue
                 for n in f.names:
@@ -204,9 +216,10 @@ class DocGen:
         return out
 
 
-def every_element_document(dsl_text, version=(1, 71), repeat=1):
+def every_element_document(dsl_text, version=(1, 71), repeat=1, stagger=False):
     enums, blocks = parse_dsl(dsl_text)
     g = DocGen(enums, blocks, version, repeat)
+    g.stagger = stagger
     root = blocks["A2L_FILE"]
     out = ""
     for f in root.fields:
@@ -721,6 +734,9 @@ if __name__ == "__main__":
     doc, info = every_element_document(dsl_body(open(root + "/a2lfile/src/specification_orig.rs").read()))
     print(info)
     open("/var/tmp/w/every_element.a2l", "w").write(doc)
+    doc2, info_s = every_element_document(dsl_body(open(root + "/a2lfile/src/specification_orig.rs").read()), stagger=True)
+    open("/var/tmp/w/every_element_staggered.a2l", "w").write(doc2)
+    print("staggered", info_s["lines"])
     devs = deviation_documents(dsl_body(open(root + "/a2lfile/src/specification_orig.rs").read()))
     import collections
     print(len(devs), collections.Counter(d["kind"] for d in devs))
